@@ -26,6 +26,7 @@
 #include "serde.hpp"
 
 #include <cmath>
+#include <limits>
 #include <string>
 #include <sstream>
 
@@ -346,8 +347,8 @@ std::pair<ebpps_sample<T, A>, size_t> ebpps_sample<T, A>::deserialize(const uint
   ensure_minimum_memory(size, sizeof(double));
   double c;
   ptr += copy_from_mem(ptr, c);
-  if (c < 0.0)
-    throw std::runtime_error("sketch image has C < 0.0 during deserializaiton");
+  if (!(c >= 0.0 && c <= std::numeric_limits<uint32_t>::max()))
+    throw std::runtime_error("sketch image has C < 0.0 or not a valid count during deserializaiton");
 
   double c_int;
   const double c_frac = std::modf(c, &c_int);
@@ -381,8 +382,8 @@ template<typename T, typename A>
 template<typename SerDe>
 ebpps_sample<T, A> ebpps_sample<T, A>::deserialize(std::istream& is, const SerDe& sd, const A& allocator) {
   const double c = read<double>(is);
-  if (c < 0.0)
-    throw std::runtime_error("sketch image has C < 0.0 during deserializaiton");
+  if (!(c >= 0.0 && c <= std::numeric_limits<uint32_t>::max()))
+    throw std::runtime_error("sketch image has C < 0.0 or not a valid count during deserializaiton");
 
   double c_int;
   const double c_frac = std::modf(c, &c_int);
